@@ -342,7 +342,9 @@ func scenarios(tier string) []engine.Scenario {
 			if cf.Name == "t97-q30x4-p30x1" {
 				// length 3 with a wide last step and length 4 on the reduced alphabet, one parameter set, both modes
 				for k := 0; k < 4*nch; k++ {
-					scs = append(scs, progScenario(cf, "core-core-wide", [][]instr{core, core, wide}, k, 4*nch))
+					if !cf.si {
+						scs = append(scs, progScenario(cf, "core-core-wide", [][]instr{core, core, wide}, k, 4*nch))
+					}
 					scs = append(scs, progScenario(cf, "mini^4", [][]instr{mini, mini, mini, mini}, k, 4*nch))
 				}
 			}
@@ -366,7 +368,8 @@ func main() {
 		ID:    "C05",
 		Level: "model_checking",
 		Rule: "State machine = 4 ciphertext registers (model: slot vector over Z_t, level, degree, scale, noise bound). An instruction is (opcode, op0 register, operand kind, value variant, destination form); " +
-			"quick enumerates ALL programs core x wide and wide x core (length 2) plus the MulRelin+Rescale spine to level 0 with at most one deviating step; thorough ALL programs wide x wide and core^3. " +
+			"quick enumerates ALL programs core x wide, wide x core (length 2) and mini^3 (length 3) plus the MulRelin+Rescale spine to level 0 with at most one deviating step, and on the secondary parameter sets (plaintext ring 4x / 8x smaller, P-less chains) all one-instruction programs and mini^2; " +
+			"thorough ALL programs wide x wide and core^3 on every parameter set in both modes, core^2 x wide and mini^4 on one. Destination forms include a reused receiver (stale data, top level, degree 2 where the operation sets the degree itself); op0 ranges over registers at the top level, one level lower and of degree 2. " +
 			"Plus the qmul-boundary family: scale-invariant ct x ct products at every level of chains whose bit lengths sweep the steps of the auxiliary-basis table (LogN 10: every bit length 50..61 and 110..122; LogN 4: bitlen+LogN in 61k-1..61k+2). " +
 			"After every instruction: documented error / level / degree / scale, then decrypt+Decode with the recorded scale must equal the model in every slot. " +
 			"A refused instruction is executed once and not extended. distinct_nontrivial counts distinct (opcode, operand kind, decoded vector, level, degree, scale) observations.",
